@@ -58,7 +58,7 @@ def solve(device, p=0, s0=None, solver_options={}, prox=None, cb=None):
 
   # Don't attempt solve if input constrained to single solution.
   if (device.bounds[:, 0] == device.bounds[:, 1]).all():
-    return (device.lbounds, None)
+    return (device.lbounds.reshape(device.shape), None)
 
   # Find a (assumed) feasible starting point
   s0 = (s0 if s0 is not None else device.project(np.zeros(device.shape))).flatten()
